@@ -25,6 +25,8 @@ CONSTANTS B,               \* units per block
           Emit,                       \* TRUE: print <<input, result>> of every finished run as JSON (for replay)
           SparseCheckOnFragBlock,     \* TRUE = pinned tree (defect: all-zero fragment block dropped)
           Dev,                        \* "none" or the name of a deviation
+          FailIds,                    \* content ids whose block makes the compressor fail (the worker returns an error; the pool records it)
+          FinishChecksStatus,         \* TRUE = repaired tree: sqfs_block_processor_finish / sync look at the pool status after draining
           ChainSeq                    \* <<>>, or a sequence of distinct content ids: the inputs are then the long collision chain
                                       \* (one single-block file per id, all of one stored size and one checksum) followed by nothing or by a
                                       \* copy of one of them - the candidate search of deduplicate_blocks at a depth the general bounds cannot reach
@@ -46,6 +48,7 @@ CompUnits(d) == IF d = <<>> THEN 0 ELSE Min(CS[Head(d).c], Head(d).n) + CompUnit
 NullBlk == [file |-> 0, index |-> 0, flags |-> {}, data |-> <<>>, size |-> 0, csum |-> 0, ioSeq |-> 0]
 
 (* ---------------- worker: process_block ---------------- *)
+CompFails(b) == \E i \in 1..Len(b.data) : b.data[i].c \in FailIds
 Process(b) ==
   IF b.size = 0 THEN b
   ELSE IF ("IGNORE_SPARSE" \notin b.flags \/ Dev = "IgnoreNoSparse") /\ (SparseCheckOnFragBlock \/ "FRAGMENT_BLOCK" \notin b.flags)
@@ -53,9 +56,16 @@ Process(b) ==
        THEN [b EXCEPT !.flags = @ \cup {"IS_SPARSE"}]
   ELSE LET b1 == [b EXCEPT !.csum = HashData(b.data)] IN
        IF "IS_FRAGMENT" \in b.flags \/ ("DONT_COMPRESS" \in b.flags /\ Dev # "IgnoreDontCompress") THEN b1
+       ELSE IF CompFails(b) THEN b1                                     \* do_block failed: data untouched, the callback returns the error
        ELSE LET r == CompUnits(b.data) IN
             IF r < b.size /\ Dev # "NeverCompress"
             THEN [b1 EXCEPT !.size = r, !.flags = @ \cup {"COMPRESSED"}] ELSE b1
+(* whether the worker's callback fails on this block (same path as Process up to the compressor call) *)
+WorkerFails(b) ==
+  /\ b.size # 0
+  /\ ~(("IGNORE_SPARSE" \notin b.flags \/ Dev = "IgnoreNoSparse") /\ (SparseCheckOnFragBlock \/ "FRAGMENT_BLOCK" \notin b.flags) /\ AllZero(b.data))
+  /\ ~("IS_FRAGMENT" \in b.flags \/ ("DONT_COMPRESS" \in b.flags /\ Dev # "IgnoreDontCompress"))
+  /\ CompFails(b)
 
 (* ---------------- block writer ---------------- *)
 Key(b) == <<b.size, "COMPRESSED" \in b.flags, b.csum>>
@@ -117,7 +127,8 @@ Completed(s, b) ==            \* process_completed_block
 Enqueue(s, b) ==              \* frontend.c: enqueue_block (in-flight copy of fragment blocks)
   LET s1 == IF "FRAGMENT_BLOCK" \in b.flags /\ Dev # "InFlightCopyDropped"
             THEN [s EXCEPT !.inflight = @ \cup {[index |-> b.index, data |-> b.data]}] ELSE s
-  IN [s1 EXCEPT !.pool = Append(@, b)]
+  IN IF s1.pfail THEN [s1 EXCEPT !.err = TRUE]                          \* pool submit() returns the recorded status
+     ELSE [s1 EXCEPT !.pool = Append(@, b)]
 
 RECURSIVE AtomAtAcc(_, _)
 AtomAtAcc(d, off) == IF d = <<>> THEN [c |-> "none", n |-> 0]
@@ -186,10 +197,11 @@ DeqLoop(s, old) ==            \* backend.c: dequeue_block
   IF s1.backlog < old THEN s1
   ELSE IF s1.backlog = 1 /\ (s1.hasFrag \/ s1.hasCur) THEN s1
   ELSE IF s1.backlog = 2 /\ s1.hasFrag /\ s1.hasCur THEN s1
-  ELSE IF s1.pool = <<>> THEN [s1 EXCEPT !.err = TRUE]                  \* pool dequeue returned NULL
+  ELSE IF s1.pool = <<>> \/ s1.pfail THEN [s1 EXCEPT !.err = TRUE]      \* pool dequeue returned NULL (nothing queued, or a worker failed earlier)
   ELSE LET k  == PoolPick(s1)
            b  == Process(s1.pool[k])
-           s2 == [s1 EXCEPT !.pool = RemoveAt(@, k), !.orc = IF @ = <<>> THEN @ ELSE Tail(@)]
+           s2 == [s1 EXCEPT !.pool = RemoveAt(@, k), !.orc = IF @ = <<>> THEN @ ELSE Tail(@),
+                            !.pfail = WorkerFails(s1.pool[k])]                  \* the failed item itself is still handed back
            s3 == IF "IS_FRAGMENT" \in b.flags THEN CompletedFrag(s2, b)
                  ELSE IF "FRAGMENT_BLOCK" \notin b.flags \/ Dev = "FragSeqAtCompletion"
                       THEN [s2 EXCEPT !.ioq = InsertIo(@, [b EXCEPT !.ioSeq = s2.ioSeq]), !.ioSeq = @ + 1]
@@ -238,10 +250,11 @@ SyncDone(s) == \/ s.backlog = 0
                \/ (s.backlog = 2 /\ s.hasFrag /\ s.hasCur)
 RECURSIVE Sync(_)
 Sync(s) == IF s.err \/ SyncDone(s) THEN s ELSE Sync(DeqLoop(s, s.backlog))
+StatusCheck(s) == IF FinishChecksStatus /\ s.pfail THEN [s EXCEPT !.err = TRUE] ELSE s
 Finish(s) ==                  \* sqfs_block_processor_finish
-  LET s1 == Sync(s) IN
+  LET s1 == StatusCheck(Sync(s)) IN
   IF s1.err \/ ~s1.hasFrag THEN s1
-  ELSE Sync(Enqueue([s1 EXCEPT !.hasFrag = FALSE, !.ioSeq = @ + 1], [s1.frag EXCEPT !.ioSeq = s1.ioSeq]))
+  ELSE StatusCheck(Sync(Enqueue([s1 EXCEPT !.hasFrag = FALSE, !.ioSeq = @ + 1], [s1.frag EXCEPT !.ioSeq = s1.ioSeq])))
 
 (* ---------------- inputs and the lock-step driver ---------------- *)
 BlockSeqs == UNION {[1..k -> ContentIds] : k \in 0..MaxBlocks}
@@ -259,10 +272,10 @@ S0(mb, orc, nfiles) ==
   [backlog |-> 0, hasCur |-> FALSE, cur |-> NullBlk, blkFlags |-> {}, blkIndex |-> 0, curFile |-> 0,
    hasFrag |-> FALSE, frag |-> NullBlk, pool |-> <<>>, ioq |-> <<>>, ioSeq |-> 0, ioDeq |-> 0,
    inflight |-> {}, ht |-> <<>>, ftbl |-> <<>>, wb |-> <<>>, fileStart |-> 0, dsize |-> 0,
-   ino |-> [f \in 1..nfiles |-> Ino0], err |-> FALSE, mb |-> mb, orc |-> orc]
+   ino |-> [f \in 1..nfiles |-> Ino0], err |-> FALSE, mb |-> mb, orc |-> orc, pfail |-> FALSE]
 
 Result(s) == [disk |-> [k \in 1..Len(s.wb) |-> [size |-> s.wb[k].size, comp |-> s.wb[k].comp, data |-> s.wb[k].data]],
-              ino |-> s.ino, ftbl |-> s.ftbl]
+              ino |-> s.ino, ftbl |-> s.ftbl, pfail |-> s.pfail, err |-> s.err]
 
 VARIABLES input, T, R, fileNo, step, done
 vars == <<input, T, R, fileNo, step, done>>
@@ -320,6 +333,8 @@ Normalize(d) ==               \* zero atoms are compared by length only (sparse 
   IF d = <<>> THEN <<>> ELSE <<Head(d)>> \o Normalize(Tail(d))
 
 NoError       == done => ~T.err /\ ~R.err
+(* a failure of the compressor in any worker reaches the caller: some call up to and including finish() returns an error *)
+ErrorReported == done => (T.pfail => T.err)
 Deterministic == done => Result(T) = Result(R)
 DataIntegrity == done => \A f \in 1..Len(input) : ReadBack(T, f) = Expected(f)
 NoLeak        == done => T.backlog = 0 /\ T.pool = <<>> /\ T.ioq = <<>> /\ T.inflight = {} /\ ~T.hasFrag /\ ~T.hasCur
